@@ -199,7 +199,14 @@ def run_frontend_case(ctx, rng, idx, case=None):
     total = sum(c["rated"] for c in srcs)
     n = int(rng.integers(1, 6))
     P = [float(np.round(rng.uniform(0.0, 0.7) * total, 1)) for _ in range(n)]
-    return exec_frontend_case(ctx, {"kind": "frontend", "spec": spec, "P": P, "fraction": f_pct})
+    case = {"kind": "frontend", "spec": spec, "P": P, "fraction": f_pct}
+    ties = len(spec.get("bus_ties", []))
+    if ties >= 2 and rng.random() < 0.6:
+        # a split-bus study before this calculation: a breaker other than the first was opened by the user (for the same samples),
+        # on a fresh plant or after an earlier calculation of the same length (seeded change C15-r6: the interface closed the
+        # breakers only when the FIRST one was not already closed)
+        case["opened_before"] = {"breaker": int(rng.integers(2, ties + 1)), "after_first_calculation": bool(rng.random() < 0.6)}
+    return exec_frontend_case(ctx, case)
 
 
 def exec_frontend_case(ctx, case):
@@ -214,6 +221,12 @@ def exec_frontend_case(ctx, case):
     try:
         plant = plants.Plant(spec)
         mc = MachineryCalculation(feems_system=plant.system, maximum_allowed_power_source_load_percentage=f_pct)
+        ob = case.get("opened_before")
+        if ob:
+            ctx.count("breaker_opened_before_the_calculation", "after an earlier calculation" if ob["after_first_calculation"] else "fresh plant")
+            if ob["after_first_calculation"]:
+                mc.calculate_machinery_system_output_from_statistics(propulsion_power=np.array(P), frequency=np.full(n, 60.0), auxiliary_power_kw=0.0)
+            plant.electric.set_bus_tie_status([(ob["breaker"], np.zeros(n, dtype=bool))])
         mc.calculate_machinery_system_output_from_statistics(propulsion_power=np.array(P), frequency=np.full(n, 60.0), auxiliary_power_kw=0.0)
     except Exception as e:
         ctx.fail("predicate", "front-end-raises-" + core.error_class(e), f"{type(e).__name__}: {e}", where)
